@@ -42,24 +42,115 @@ type smp struct {
 	t  int64
 	f  float64
 	fh *histogram.FloatHistogram
+	h  *histogram.Histogram
 }
 
 func (s smp) T() int64                      { return s.t }
 func (s smp) ST() int64                     { return 0 }
 func (s smp) F() float64                    { return s.f }
-func (smp) H() *histogram.Histogram         { return nil }
-func (s smp) FH() *histogram.FloatHistogram { return s.fh }
+func (s smp) H() *histogram.Histogram       { return s.h }
+func (s smp) FH() *histogram.FloatHistogram {
+	if s.h != nil {
+		return s.h.ToFloat(nil)
+	}
+	return s.fh
+}
 func (s smp) Type() chunkenc.ValueType {
+	if s.h != nil {
+		return chunkenc.ValHistogram
+	}
 	if s.fh != nil {
 		return chunkenc.ValFloatHistogram
 	}
 	return chunkenc.ValFloat
 }
 func (s smp) Copy() chunks.Sample {
+	if s.h != nil {
+		return smp{t: s.t, h: s.h.Copy()}
+	}
 	if s.fh != nil {
 		return smp{t: s.t, fh: s.fh.Copy()}
 	}
 	return s
+}
+
+// queryableMulti serves one series with several samples.
+func queryableMulti(l labels.Labels, ss []smp) storage.Queryable {
+	return &storage.MockQueryable{MockQuerier: &storage.MockQuerier{
+		SelectMockFunction: func(bool, *storage.SelectHints, ...*labels.Matcher) storage.SeriesSet {
+			cs := make([]chunks.Sample, len(ss))
+			for i, x := range ss {
+				cs[i] = x
+			}
+			return &listSet{ss: []storage.Series{storage.NewListSeries(l, cs)}}
+		}}}
+}
+
+// runRange evaluates expr as a range query; returns value per step timestamp (absent steps missing).
+func runRange(ng *promql.Engine, q storage.Queryable, expr string, start, end, step int64) (out map[int64]float64, err error) {
+	defer func() {
+		if r := recover(); r != nil {
+			err = fmt.Errorf("panic: %v", r)
+		}
+	}()
+	qry, err := ng.NewRangeQuery(context.Background(), q, nil, expr, time.UnixMilli(start), time.UnixMilli(end), time.Duration(step)*time.Millisecond)
+	if err != nil {
+		return nil, err
+	}
+	defer qry.Close()
+	res := qry.Exec(context.Background())
+	if res.Err != nil {
+		return nil, res.Err
+	}
+	mat, err := res.Matrix()
+	if err != nil {
+		return nil, err
+	}
+	out = map[int64]float64{}
+	if len(mat) > 1 {
+		return nil, fmt.Errorf("%d result series", len(mat))
+	}
+	for _, sr := range mat {
+		if len(sr.Histograms) > 0 {
+			return nil, fmt.Errorf("histogram result")
+		}
+		for _, p := range sr.Floats {
+			out[p.T] = p.F
+		}
+	}
+	return out, nil
+}
+
+// runAt evaluates expr as an instant query at ts; present=false when the result is empty.
+func runAt(ng *promql.Engine, q storage.Queryable, expr string, ts int64) (v float64, present bool, err error) {
+	defer func() {
+		if r := recover(); r != nil {
+			err = fmt.Errorf("panic: %v", r)
+		}
+	}()
+	qry, err := ng.NewInstantQuery(context.Background(), q, nil, expr, time.UnixMilli(ts))
+	if err != nil {
+		return 0, false, err
+	}
+	defer qry.Close()
+	res := qry.Exec(context.Background())
+	if res.Err != nil {
+		return 0, false, res.Err
+	}
+	vec, err := res.Vector()
+	if err != nil {
+		return 0, false, err
+	}
+	switch len(vec) {
+	case 0:
+		return 0, false, nil
+	case 1:
+		if vec[0].H != nil {
+			return 0, false, fmt.Errorf("histogram result")
+		}
+		return vec[0].F, true, nil
+	}
+	return 0, false, fmt.Errorf("%d result samples", len(vec))
 }
 
 type listSet struct {
@@ -696,6 +787,107 @@ func classicCorpus() []ccase {
 	}
 }
 
+// ---- range cases -------------------------------------------------------------------------------
+
+type rsmp struct {
+	t  int64
+	h  *histogram.Histogram
+	fh *histogram.FloatHistogram
+}
+
+type rcase struct {
+	ss               []rsmp
+	start, end, step int64
+	kind, corpus     string
+}
+
+func intHist(counts []int64, zero uint64, sum float64) *histogram.Histogram {
+	h := &histogram.Histogram{Schema: 0, ZeroThreshold: 0.001, ZeroCount: zero, Sum: sum,
+		PositiveSpans: []histogram.Span{{Offset: 0, Length: uint32(len(counts))}}}
+	var prev int64
+	tot := zero
+	for _, c := range counts {
+		h.PositiveBuckets = append(h.PositiveBuckets, c-prev)
+		prev = c
+		tot += uint64(c)
+	}
+	h.Count = tot
+	return h
+}
+
+// mkRange builds a series from per-sample totals: the k-th sample has buckets [base, 2*base, base+1] scaled.
+func mkRangeSeries(r *gen.Rand, times []int64, style int) []rsmp {
+	var out []rsmp
+	level := r.Range(1, 5)
+	for i, t := range times {
+		if i > 0 {
+			if r.Chance(1, 4) { // counter reset
+				level = r.Range(0, 2)
+			} else {
+				level += r.Range(0, 6)
+			}
+		}
+		counts := []int64{level, 2*level + 1, level / 2}
+		sum := float64(level)*2.5 + float64(r.Range(-8, 8))/4
+		h := intHist(counts, uint64(level%3), sum)
+		isInt := style == 0 || (style == 2 && r.Bool())
+		if isInt {
+			out = append(out, rsmp{t: t, h: h})
+		} else {
+			out = append(out, rsmp{t: t, fh: h.ToFloat(nil)})
+		}
+	}
+	return out
+}
+
+func genRange(r *gen.Rand) rcase {
+	n := int(r.Range(2, 8))
+	ivs := []int64{60000, 240000, 300000, 360000, 420000, 660000}
+	var times []int64
+	t := int64(600000) + r.Range(0, 5)*15000
+	sparse := r.Intn(3) // 0: all > lookback, 1: mixed, 2: dense
+	for i := 0; i < n; i++ {
+		times = append(times, t)
+		switch sparse {
+		case 0:
+			t += ivs[3+r.Intn(3)]
+		case 1:
+			t += ivs[r.Intn(len(ivs))]
+		default:
+			t += ivs[r.Intn(2)]
+		}
+	}
+	steps := []int64{30000, 60000, 120000, 300000, 360000, 420000, 780000}
+	step := steps[r.Intn(len(steps))]
+	start := times[0] - r.Range(0, 2)*step
+	if r.Chance(1, 3) {
+		start = times[0] // a step exactly on a sample
+	}
+	end := times[len(times)-1] + 2*step + 360000
+	for (end-start)/step > 60 {
+		end -= step
+	}
+	style := r.Intn(3)
+	kind := []string{"sparse", "mixed", "dense"}[sparse] + "/" + []string{"int", "float", "int+float"}[style]
+	return rcase{ss: mkRangeSeries(r, times, style), start: start, end: end, step: step, kind: kind}
+}
+
+func rangeCorpus() []rcase {
+	r := gen.New(7)
+	mk := func(name string, style int, start, end, step int64, times ...int64) rcase {
+		return rcase{ss: mkRangeSeries(r, times, style), start: start, end: end, step: step, kind: "corpus", corpus: name}
+	}
+	return []rcase{
+		// 6m scrape interval, steps aligned with the samples: every step needs a Seek beyond the lookback
+		mk("sparse-6m-aligned", 0, 600000, 2400000, 360000, 600000, 960000, 1320000, 1680000, 2040000),
+		mk("sparse-6m-aligned-float", 1, 600000, 2400000, 360000, 600000, 960000, 1320000, 1680000, 2040000),
+		// 6m interval, 1m steps: the Seek lands on a sample in the future of the step
+		mk("sparse-6m-step-1m", 0, 600000, 2400000, 60000, 600000, 960000, 1320000, 1680000, 2040000),
+		mk("sparse-11m-step-2m", 2, 540000, 3300000, 120000, 600000, 1260000, 1920000, 2580000),
+		mk("dense-1m-step-1m", 0, 600000, 1200000, 60000, 600000, 660000, 720000, 780000, 840000, 900000),
+	}
+}
+
 // ---- main --------------------------------------------------------------------------------------
 
 type desc struct {
@@ -960,6 +1152,84 @@ func main() {
 		meta.Case(id, desc{Kind: "classic:" + kind, Bks: bS, Qs: qS, Shape: shape, Corpus: c.corpus})
 		meta.Evaluations++
 		id++
+	}
+
+	// ---- range queries over a sparse histogram series (stats-only decoding path) ----
+	const lookback = 300000
+	emitRange := func(c rcase) {
+		l := labels.FromStrings("__name__", "r", "job", "j")
+		var ss []smp
+		var sTerms, sS []string
+		for _, x := range c.ss {
+			if x.h != nil {
+				ss = append(ss, smp{t: x.t, h: x.h})
+			} else {
+				ss = append(ss, smp{t: x.t, fh: x.fh})
+			}
+			fh := smp{h: x.h, fh: x.fh}.FH()
+			sTerms = append(sTerms, fmt.Sprintf("(zi %d, %s, %s)", x.t, qTerm(fh.Count), resTerm(fh.Sum)))
+			kind := "f"
+			if x.h != nil {
+				kind = "i"
+			}
+			sS = append(sS, fmt.Sprintf("%d:%s{count:%v,sum:%v}", x.t, kind, fh.Count, fh.Sum))
+		}
+		qbl := queryableMulti(l, ss)
+		shape := "ok"
+		fail := func(sh, what string) {
+			if shape == "ok" {
+				shape = sh
+			}
+			goViol(sh, what)
+		}
+		fns := []string{"histogram_count", "histogram_sum", "histogram_avg", "histogram_stddev", "histogram_stdvar"}
+		obs := map[string]map[int64]float64{}
+		for _, fn := range fns {
+			m, err := runRange(ng, qbl, fn+"(r)", c.start, c.end, c.step)
+			if err != nil {
+				fail("engine-error", fn+"(r) range: "+err.Error())
+				m = map[int64]float64{}
+			}
+			obs[fn] = m
+		}
+		optTerm := func(m map[int64]float64, t int64) string {
+			if v, ok := m[t]; ok {
+				return "(Some " + resTerm(v) + ")"
+			}
+			return "None"
+		}
+		var stTerms, stS []string
+		for t := c.start; t <= c.end; t += c.step {
+			// every step of the range query equals the instant query at that time
+			for _, fn := range fns {
+				iv, ip, err := runAt(ng, qbl, fn+"(r)", t)
+				if err != nil {
+					fail("engine-error", fn+"(r) instant: "+err.Error())
+					continue
+				}
+				rv, rp := obs[fn][t]
+				if ip != rp || (ip && !sameFloat(iv, rv)) {
+					fail("range-step-differs-from-instant", fmt.Sprintf("%s(r) at step %d of range [%d,%d] step %d: range query %v (present %v), instant query %v (present %v)", fn, t, c.start, c.end, c.step, rv, rp, iv, ip))
+				}
+			}
+			stTerms = append(stTerms, fmt.Sprintf("(zi %d, %s, %s, %s)", t, optTerm(obs["histogram_count"], t), optTerm(obs["histogram_sum"], t), optTerm(obs["histogram_avg"], t)))
+			stS = append(stS, fmt.Sprintf("%d:%s/%s/%s", t, optTerm(obs["histogram_count"], t), optTerm(obs["histogram_sum"], t), optTerm(obs["histogram_avg"], t)))
+		}
+		cf.Add(fmt.Sprintf("CR (mkR (zi %d) (zi %d) %s %s)", id, lookback, list(sTerms, "Z * Q * res"), list(stTerms, "Z * option res * option res * option res")))
+		meta.Hit("range")
+		meta.Hit("range:" + c.kind)
+		if len(c.ss) >= 2 {
+			meta.Nontrivial++
+		}
+		meta.Case(id, desc{Kind: "range:" + c.kind, Bks: sS, Qs: []string{fmt.Sprintf("start=%d end=%d step=%d", c.start, c.end, c.step)}, Fs: stS, Shape: shape, Corpus: c.corpus})
+		meta.Evaluations++
+		id++
+	}
+	for _, c := range rangeCorpus() {
+		emitRange(c)
+	}
+	for i := 0; i < f.Count(40, 1200); i++ {
+		emitRange(genRange(gen.Fork(f.Seed, 3000000+i)))
 	}
 
 	for i, c := range nativeCorpus() {
